@@ -257,3 +257,19 @@ def regress_files(prop):
 def load_json(path):
     with open(path) as f:
         return json.load(f)
+
+
+def hang_is_failure(result_for_hang):
+    """Decorator for an oracle function: a tool that does not finish within its budget is a failure of the case being checked
+    (reported, confirmed by re-running and replayable like any other), not an error of the run."""
+    def deco(fn):
+        def wrapped(*a, **k):
+            try:
+                return fn(*a, **k)
+            except subprocess.TimeoutExpired as e:
+                cmd = e.cmd if isinstance(e.cmd, str) else ' '.join(os.path.basename(str(c)) for c in list(e.cmd)[:4])
+                return result_for_hang('hang: %s did not finish within %.0f s' % (cmd, e.timeout))
+        wrapped.__name__ = fn.__name__
+        wrapped.__doc__ = fn.__doc__
+        return wrapped
+    return deco
